@@ -7,6 +7,10 @@ Legs (design parts):
  (c) variable-length RP66V1 codes with a prefix, sentinel bytes, truncations; consumption and the *_len helpers;
  (d) to68 of the three implementations: bit-for-bit agreement, decode-encode-decode equivalence, 2^-22 bound;
      ReadBIT.bytes_to_float against ISINGL;
+ (f) the other public ways in: RepCode.fromRepCode, readRepCode / readNN through an object offering File.unpack (the path
+     the LIS record readers use), pRepCode.readNN, the integer writers (writeBytes 66/73/79), wordLength,
+     rep_code_fixed_length / is_fixed_length, *_len on bytearray; mixed sequences of values decoded one after the other
+     from a single LogicalData / file object against the same bytes decoded in isolation;
  (e) sanitizers: native/c68_sweep.cpp (tree's LISRepCode.cpp, ASan+UBSan) and the ASan+UBSan builds of
      cRepCode / cpRepCode / cFrameSet driven in a child interpreter with the ASan runtime preloaded.
 The shards themselves run the 'plain' (gcc) rebuild; every sanitizer leg is a bounded subprocess of a shard.
@@ -48,17 +52,24 @@ ASSUMPTIONS = [
     'in-range for the 2^-22 bound means 2^-128 <= |v| < 2^127',
     'the *_len helpers are asserted only where the complete value is present in the buffer (their docstrings exclude short buffers)',
     'sanitizer reports located in the harness or generated wrapper code rather than in a tree source file make the run inconclusive, not violated',
+    'readRepCode / readNN are given an object with the one method they use (unpack(struct) on the bytes at its position, as LIS File.FileRead.unpack does); the physical file plumbing is C05',
+    'integer writers: writeBytes(v, 66/73/79) of a decoded value must give back the word (integer codes: equivalent = identical); codes without a writer (49, 50, 56, 70, 77) and values outside the code range are not asserted',
+    'sequential decoding: a value decoded from a shared LogicalData / file object must equal the value the same bytes give when decoded alone (which the other legs compare with the reference) and advance the position by the same amount',
 ]
 _P, _R, _B = 'TotalDepth.LIS.core.pRepCode', 'TotalDepth.RP66V1.core.pRepCode', 'TotalDepth.BIT.ReadBIT'
 MECHANISMS = ([(_P, n) for n in ('from49', 'from50', 'from56', 'from66', 'from68', 'from70', 'from73', 'from77', 'from79', 'to68')]
               + [('TotalDepth.LIS.core.RepCode', n) for n in ('readBytes', 'writeBytes', 'readBytes49', 'readBytes50', 'readBytes68',
-                                                                'readBytes70', 'readBytes73', 'readBytes79', 'writeBytes68')]
+                                                                'readBytes70', 'readBytes73', 'readBytes79', 'writeBytes68', 'fromRepCode', 'readRepCode',
+                                                                'read49', 'read50', 'read56', 'read66', 'read68', 'read70', 'read73', 'read77', 'read79',
+                                                                'writeBytes66', 'writeBytes73', 'writeBytes79')]
+              + [(_P, n) for n in ('read49', 'read68', 'read79', 'wordLength')]
+              + [(_R, n) for n in ('rep_code_fixed_length', 'is_fixed_length')]
               + [(_R, n) for n in ('FSINGL', 'ISINGL', 'VSINGL', 'FDOUBL', 'SSHORT', 'SNORM', 'SLONG', 'USHORT', 'UNORM', 'ULONG',
                                    'UVARI', 'UVARI_len', 'IDENT', 'IDENT_len', 'ASCII', 'DTIME', 'ORIGIN', 'ORIGIN_len', 'OBNAME',
                                    'OBNAME_len', 'OBJREF', 'STATUS', 'UNITS', 'code_read')]
               + [(_B, 'bytes_to_float')])
 REQUIRED_MONITORS = ['exact_reference', 'differential_from68', 'differential_to68', 'consumption', 'len_helpers',
-                     'truncated_must_raise', 'encoder_equivalence', 'encoder_bound', 'bit_vs_isingl', 'ref_selfcheck',
+                     'truncated_must_raise', 'encoder_equivalence', 'encoder_bound', 'bit_vs_isingl', 'ref_selfcheck', 'sequential_stream', 'integer_writers',
                      'sanitizer_harness_words', 'sanitizer_module_calls']
 MIN_NONTRIVIAL = {'quick': 3000000, 'thorough': 400000000}
 TIMEOUT_S = {'quick': 400, 'thorough': 3400}
@@ -477,6 +488,47 @@ def struct_form(pRepCode, code):
     return 'signed' if fmt[-1] in 'bhil' else 'unsigned'
 
 
+class UnpackFile:
+    """What the LIS record readers hand to readRepCode / readNN: an object whose unpack(struct) consumes struct.size bytes
+    at the current position (LIS File.FileRead.unpack).  Written here from that one-line contract."""
+    __slots__ = ('b', 'pos')
+
+    def __init__(self, b):
+        self.b, self.pos = b, 0
+
+    def unpack(self, st):
+        chunk = self.b[self.pos:self.pos + st.size]
+        self.pos += len(chunk)
+        return st.unpack(chunk)
+
+
+def lis_file_entries(code, mods, S):
+    """(f) the file-object readers and the despatch functions."""
+    RepCode, p, c, cp = mods
+    size = lis_size_of(code)
+    rec = S.rec
+
+    def via(fn, label):
+        def run(b):
+            f = UnpackFile(b + SENTINEL)
+            v = fn(f)
+            if f.pos != size and S.want((code, label, 'consumption'), False):
+                rec.violation('consumption', 'fixed-length', 'LIS%d %s consumed %d bytes, the standard says %d' % (code, label, f.pos, size),
+                              {'code': 'LIS%d' % code, 'entry': label, 'bytes': b.hex(), 'consumed': f.pos, 'expected': size})
+            return v
+        return run
+    sf = struct_form(p, code)
+    ents = [('RepCode.fromRepCode', 'unsigned' if code in (49, 50, 68, 70) else sf, lambda w, _c=code: RepCode.fromRepCode(_c, w)),
+            ('RepCode.readRepCode(file)', 'bytes', via(lambda f, _c=code: RepCode.readRepCode(_c, f), 'readRepCode')),
+            ('RepCode.read%d(file)' % code, 'bytes', via(getattr(RepCode, 'read%d' % code), 'RepCode.read%d' % code)),
+            ('pRepCode.read%d(file)' % code, 'bytes', via(getattr(p, 'read%d' % code), 'pRepCode.read%d' % code))]
+    return ents
+
+
+def lis_size_of(code):
+    return {49: 2, 50: 4, 56: 1, 66: 1, 68: 4, 70: 4, 73: 4, 77: 1, 79: 2}[code]
+
+
 def lis_entries(code, mods, which=('user', 'p', 'c', 'cp')):
     RepCode, p, c, cp = mods
     sf = struct_form(p, code)
@@ -599,7 +651,7 @@ def leg_selfcheck(S, rng, R):
         S.rec.inconclusive_because('reference self-check failed: ' + b)
 
 
-def run_fixed(S, code, words, entries, label, exhaustive, np, R, diff=None):
+def run_fixed(S, code, words, entries, label, exhaustive, np, R, diff=None, count_nt=True):
     """Run words through entries in batches; record the enumerated sub-space."""
     rec = S.rec
     n = len(words)
@@ -609,7 +661,7 @@ def run_fixed(S, code, words, entries, label, exhaustive, np, R, diff=None):
         if diff:
             differential(S, diff[0], diff[1], chunk.tolist(), res, diff[2], np, as_float=True)
     nz = int((words != 0).sum())
-    rec.bulk_cases('%s %s' % (code_name(code), label), n, 0 if S.under else nz, exhaustive=exhaustive if not S.under else None,
+    rec.bulk_cases('%s %s' % (code_name(code), label), n, 0 if (S.under or not count_nt) else nz, exhaustive=exhaustive if not S.under else None,
                    sample={'code': code_name(code), 'word': hex(int(words[n // 2])), 'subspace': label} if n else None)
 
 
@@ -619,7 +671,7 @@ def leg_a_small(S, mods, RPmods, np, R):
     for code in (49, 79, 56, 66, 77):
         bits = 8 * R.LIS_SIZE[code]
         words = np.arange(S.part, 1 << bits, S.parts, dtype=np.uint64)
-        run_fixed(S, code, words, lis_entries(code, mods), 'all 2^%d words' % bits, True, np, R)
+        run_fixed(S, code, words, lis_entries(code, mods) + lis_file_entries(code, mods, S), 'all 2^%d words' % bits, True, np, R)
     for name in ('SSHORT', 'USHORT', 'STATUS', 'SNORM', 'UNORM'):
         bits = 8 * S_SIZE[name]
         words = np.arange(S.part, 1 << bits, S.parts, dtype=np.uint64)
@@ -667,10 +719,15 @@ def leg_b_wide(S, mods, RPmods, np, R, n_random, codes=None, which=('user', 'p',
         if S.under:
             mine = mine[::max(1, len(mine) // 4000)]
         run_fixed(S, code, mine, ents, label, True, np, R, diff)
+        if isinstance(code, int) and 'user' in which:
+            alt = lis_file_entries(code, mods, S)
+            run_fixed(S, code, mine[::3], alt, label + ' (every third) through fromRepCode / readRepCode / readNN(file)', None, np, R, count_nt=False)
         if code == 'ISINGL' and not S.under:
             leg_bit(S, mine, RPmods, np, R)
         rnd = random_words(code, S, n_random, np, 'b')
         run_fixed(S, code, rnd, ents, 'scrambled-index random words', None, np, R, diff)
+        if isinstance(code, int) and 'user' in which:
+            run_fixed(S, code, rnd[:max(2048, len(rnd) // 8)], alt, 'scrambled-index random words through fromRepCode / readRepCode / readNN(file)', None, np, R, count_nt=False)
         if code == 50:
             # 97% of code 50 words have no float64 value; add distinct words whose exponent is in the float64 band
             run_fixed(S, code, lis50_band_words(S, n_random, np), ents, 'exponent in [-1100, 1100], affine-scrambled distinct words', None, np, R)
@@ -782,8 +839,10 @@ def check_var(S, name, buf, pos, RP, LogicalData, R, record_case=True, classes=(
     helper = LEN_HELPERS.get(name)
     if helper:
         rec.mon('len_helpers')
+        as_bytearray = bool(len(buf) & 2)          # the helpers are documented for bytes and bytearray alike
+        S.rec.add('len_helper_calls:%s' % ('bytearray' if as_bytearray else 'bytes'), 1)
         try:
-            ln = getattr(RP, helper)(buf, pos)
+            ln = getattr(RP, helper)(bytearray(buf) if as_bytearray else buf, pos)
         except Exception as e:  # noqa
             ln = Raised(e)
         if ln != newpos - pos:
@@ -1054,6 +1113,173 @@ def leg_chain(S, mods, np, R, n):
                         {'impl': 'RepCode.from68/to68', 'value': v1[i].hex() if isinstance(v1[i], float) else describe(v1[i])[1], 'word': wl[i],
                          'reencoded': w2[i] if type(w2[i]) is int else describe(w2[i])[1],
                          'redecoded': v2[i].hex() if isinstance(v2[i], float) else describe(v2[i])[1]})
+
+
+# ---- (f) integer writers, helpers, sequences ------------------------------------------------------------------------
+def leg_int_writers(S, mods, np, R, n_random):
+    """writeBytes(v, code) of every decoded value of the integer codes that have a writer gives back the word."""
+    RepCode = mods[0]
+    rec = S.rec
+    for code, named in ((66, RepCode.writeBytes66), (79, RepCode.writeBytes79), (73, RepCode.writeBytes73)):
+        size = R.LIS_SIZE[code]
+        bits = 8 * size
+        if code == 73:
+            words = np.concatenate([stratified_words(73, np)[S.part::S.parts], random_words(73, S, n_random, np, 'w73')])
+        else:
+            words = np.arange(S.part, 1 << bits, S.parts, dtype=np.uint64)
+        vals = R.np_twos(words, bits).tolist() if code != 66 else words.tolist()
+        wl = words.tolist()
+        want = [w.to_bytes(size, 'big') for w in wl]
+        for label, fn in (('RepCode.writeBytes', lambda v, _c=code: RepCode.writeBytes(v, _c)), ('RepCode.writeBytes%d' % code, named)):
+            got, _ = call_list(fn, vals)
+            rec.mon('integer_writers', len(vals))
+            rec.mon('encoder_equivalence', len(vals))
+            rec.add('calls:%s' % label, len(vals))
+            if got == want:
+                continue
+            for i in range(len(vals)):
+                if got[i] != want[i] and S.want((code, label, 'writer'), False):
+                    rec.violation('integer_writers', 'word', 'LIS%d %s(%d) -> %s, the word of that value is %s' % (code, label, vals[i], describe(got[i])[1] if not isinstance(got[i], bytes) else got[i].hex(), want[i].hex()),
+                                  {'code': 'LIS%d' % code, 'entry': label, 'value': vals[i], 'observed': describe(got[i])[1] if not isinstance(got[i], bytes) else got[i].hex(), 'expected': want[i].hex()},
+                                  exc=got[i].exc if isinstance(got[i], Raised) else None)
+        # decode(encode(decode(w))) through the user-facing pair
+        back, _ = call_list(lambda v, _c=code: RepCode.readBytes(_c, RepCode.writeBytes(v, _c)), vals)
+        rec.mon('integer_writers', len(vals))
+        for i in range(len(vals)):
+            if not (type(back[i]) is int and back[i] == vals[i]) and S.want((code, 'chain'), False):
+                rec.violation('integer_writers', 'decode-encode-decode', 'LIS%d readBytes(writeBytes(%d)) -> %s' % (code, vals[i], describe(back[i])[1]),
+                              {'code': 'LIS%d' % code, 'value': vals[i], 'observed': describe(back[i])[1]})
+        rec.bulk_cases('LIS%d integer writer on decoded values' % code, len(vals), 0, exhaustive=True if code != 73 else None)
+
+
+def leg_helpers(S, mods, RPmods, R):
+    """Byte-length helpers that are tables: wordLength, rep_code_fixed_length, is_fixed_length."""
+    RepCode = mods[0]
+    RP = RPmods[0]
+    rec = S.rec
+    for code in R.LIS_CODES:
+        rec.mon('len_helpers')
+        try:
+            wl = RepCode.wordLength(code)
+        except Exception as e:  # noqa
+            wl = Raised(e)
+        if wl != R.LIS_SIZE[code]:
+            rec.violation('len_helpers', 'wordLength', 'wordLength(%d) = %s, decoding consumes %d' % (code, describe(wl)[1], R.LIS_SIZE[code]),
+                          {'code': code, 'observed': describe(wl)[1], 'expected': R.LIS_SIZE[code]})
+    fixed = dict(S_SIZE, DTIME=8)
+    for name, rc in sorted(R.RP_CODE.items()):
+        rec.mon('len_helpers', 2)
+        try:
+            isf = RP.is_fixed_length(rc)
+        except Exception as e:  # noqa
+            isf = Raised(e)
+        if isf is not (name in fixed):
+            rec.violation('len_helpers', 'is_fixed_length', 'is_fixed_length(%d) [%s] = %s' % (rc, name, describe(isf)[1]), {'code': name, 'observed': describe(isf)[1], 'expected': name in fixed})
+        try:
+            ln = RP.rep_code_fixed_length(rc)
+        except RP.ExceptionRepCode as e:
+            ln = Raised(e)
+        except Exception as e:  # noqa
+            ln = Raised(e)
+            rec.violation('len_helpers', 'rep_code_fixed_length-exception', 'rep_code_fixed_length(%d) [%s] raised %s' % (rc, name, type(e).__name__), {'code': name}, exc=e)
+            continue
+        if name in fixed:
+            if ln != fixed[name]:
+                rec.violation('len_helpers', 'rep_code_fixed_length', 'rep_code_fixed_length(%d) [%s] = %s, decoding consumes %d' % (rc, name, describe(ln)[1], fixed[name]),
+                              {'code': name, 'observed': describe(ln)[1], 'expected': fixed[name]})
+        elif not isinstance(ln, Raised):
+            rec.violation('len_helpers', 'rep_code_fixed_length', 'rep_code_fixed_length(%d) [%s] = %r for a variable-length code' % (rc, name, ln), {'code': name, 'observed': repr(ln)})
+
+
+def _same(a, b):
+    """Equality of two decoded values that survives NaN and signed zeros."""
+    return describe(a) == describe(b) if isinstance(a, float) or isinstance(b, float) else (type(a) is type(b) and a == b)
+
+
+def leg_streams(S, mods, RPmods, rng, R, n_streams):
+    """Values of mixed codes decoded one after the other from ONE LogicalData (RP66V1) / one file object (LIS): each must be
+    what the same bytes give alone, and leave the position at the end of its own bytes."""
+    RepCode = mods[0]
+    RP, LogicalData = RPmods
+    rec = S.rec
+    fixed = sorted(S_SIZE)
+    var = ('UVARI', 'IDENT', 'ASCII', 'UNITS', 'ORIGIN', 'OBNAME', 'OBJREF', 'DTIME')
+    for si in range(n_streams):
+        # ---- RP66V1
+        items = []
+        for _ in range(rng.randrange(2, 40)):
+            if rng.random() < 0.55:
+                name = rng.choice(fixed)
+                body = rng.randbytes(S_SIZE[name])
+                if name == 'VSINGL' and (body[1] & 0x80) and not (((body[1] & 0x7F) << 1) | (body[0] >> 7)):
+                    body = bytes([body[0] | 0x80]) + body[1:]          # not the reserved operand
+            else:
+                name = rng.choice(var)
+                body, cls = gen_var(name, rng, R)
+                try:
+                    if R.PARSERS[name](body, 0)[1] != len(body):
+                        continue                                         # raw-random bytes that are not exactly one value
+                except R.Truncated:
+                    continue
+            items.append((name, body))
+        if len(items) < 2:
+            continue
+        buf = b''.join(b for _, b in items) + SENTINEL
+        ld = LogicalData(buf)
+        pos = 0
+        rec.mon('sequential_stream', len(items))
+        rec.case(('stream', buf), True, classes=['stream:rp66v1'], sample={'codes': [n for n, _ in items][:12]} if si == 0 else None)
+        for k, (name, body) in enumerate(items):
+            rc = R.RP_CODE[name]
+            use_code_read = rng.random() < 0.5
+            fn = (lambda d, _rc=rc: RP.code_read(_rc, d)) if use_code_read else getattr(RP, name)
+            try:
+                alone = fn(LogicalData(body + SENTINEL))
+                got = fn(ld)
+            except Exception as e:  # noqa
+                if S.want(('stream', name, 'raise'), False):
+                    rec.violation('sequential_stream', 'raised', '%s (value %d of a stream of %d) raised %s: %s' % (name, k, len(items), type(e).__name__, e),
+                                  {'code': name, 'stream': buf[:400], 'offset': pos, 'codes': [n for n, _ in items][:40]}, exc=e)
+                break
+            pos += len(body)
+            if ld.index != pos or not _same(td_plain(name, alone), td_plain(name, got)):
+                if S.want(('stream', name), False):
+                    rec.violation('sequential_stream', 'differs-from-isolated', '%s as value %d of a stream: decoded %r and left the position at %d; alone the bytes %s give %r, the value ends at %d' % (
+                        name, k, td_plain(name, got), ld.index, body.hex()[:60], td_plain(name, alone), pos),
+                        {'code': name, 'stream': buf[:400], 'offset': pos - len(body), 'value_bytes': body, 'codes': [n for n, _ in items][:40],
+                         'observed': repr(td_plain(name, got))[:200], 'alone': repr(td_plain(name, alone))[:200], 'index_after': ld.index, 'expected_index': pos})
+                break
+        # ---- LIS: readRepCode on one file object
+        litems = [(c, rng.randbytes(R.LIS_SIZE[c])) for c in (rng.choice(R.LIS_CODES) for _ in range(rng.randrange(2, 40)))]
+        f = UnpackFile(b''.join(b for _, b in litems) + SENTINEL)
+        pos = 0
+        rec.mon('sequential_stream', len(litems))
+        rec.case(('lis-stream', f.b), True, classes=['stream:lis'])
+        for k, (code, body) in enumerate(litems):
+            try:
+                alone = RepCode.readBytes(code, body)
+                got = RepCode.readRepCode(code, f)
+            except Exception as e:  # noqa
+                if S.want(('lis-stream', code, 'raise'), False):
+                    rec.violation('sequential_stream', 'raised', 'LIS%d (value %d of a stream of %d) raised %s: %s' % (code, k, len(litems), type(e).__name__, e),
+                                  {'code': 'LIS%d' % code, 'stream': f.b[:400], 'offset': pos}, exc=e)
+                break
+            pos += len(body)
+            if f.pos != pos or not _same(alone, got):
+                if S.want(('lis-stream', code), False):
+                    rec.violation('sequential_stream', 'differs-from-isolated', 'LIS%d as value %d of a stream: readRepCode -> %r, position %d; readBytes of the same bytes %s -> %r, the value ends at %d' % (
+                        code, k, got, f.pos, body.hex(), alone, pos), {'code': 'LIS%d' % code, 'stream': f.b[:400], 'offset': pos - len(body), 'observed': repr(got), 'alone': repr(alone)})
+                break
+
+
+def td_plain(name, v):
+    """A decoded RP66V1 value as plain comparable data (fixed codes: the number itself)."""
+    if name in S_SIZE:
+        return v
+    try:
+        return td_value(name, v)
+    except Exception as e:  # noqa
+        return ('unreadable', repr(e))
 
 
 # ======================================================================================================================
@@ -1431,6 +1657,9 @@ def run_shard(ctx, p):
         leg_c_var(S, RPmods, ctx.sub_rng('var'), R, N_VAR[ctx.tier])
         leg_d_encoders(S, mods, ctx.sub_rng('enc'), N_ENC[ctx.tier], np, R)
         leg_chain(S, mods, np, R, N_RANDOM[ctx.tier] // 2)
+        leg_int_writers(S, mods, np, R, N_RANDOM[ctx.tier] // 4)
+        leg_helpers(S, mods, RPmods, R)
+        leg_streams(S, mods, RPmods, ctx.sub_rng('streams'), R, 150 if ctx.tier == 'quick' else 4000)
     finally:
         if harness:
             finish_harness(S, harness, R)
